@@ -103,6 +103,45 @@ func edge(x *mon.Ctx) {
 		c.End()
 	}
 
+	// 2b. range traps: r or s congruent to 0 with the digest that satisfies the
+	// equation for that residue (a verifier that forgets r != 0 or s != 0 accepts)
+	for i := 0; i < x.Scale(32, 400); i++ {
+		kind := []string{"r=0", "s=0", "r=n", "s=n", "r=0,s=n-1", "r=2n", "s=-n"}[i%7]
+		c := x.Begin("edge range trap %s i=%d", kind, i)
+		if c == nil {
+			continue
+		}
+		c.Class("range-trap/%s", kind)
+		k := smallKey(c.R)
+		v := randScalar(c.R)
+		r, s := v, v
+		switch kind {
+		case "r=0":
+			r = big64(0)
+		case "s=0":
+			s = big64(0)
+		case "r=n":
+			r = new(big.Int).Set(n)
+		case "s=n":
+			s = new(big.Int).Set(n)
+		case "r=0,s=n-1":
+			r, s = big64(0), new(big.Int).Set(nm1)
+		case "r=2n":
+			r = add(n, n)
+		case "s=-n":
+			s = new(big.Int).Neg(n)
+		}
+		if dg, ok := sm2sig.DigestFor(k.P, r, s); ok {
+			c.Event("range_traps", 1)
+			if want := judgeRS(c, "range trap "+kind+" with the digest solved for", vin{k: k, e: dg}, r, s); want != sm2sig.BadRange {
+				c.Inconclusive("reference verdict for a range trap is %s", want)
+			}
+		} else {
+			c.Trivial()
+		}
+		c.End()
+	}
+
 	// 3. x([s]G+[t]P) outside [0,n): the reduction of x1 mod n
 	xKinds := []string{"[n,p) random", "n+j", "p-1-j", "0+j", "2^255+j"}
 	for i := 0; i < x.Scale(40, 500); i++ {
